@@ -12,7 +12,9 @@ C09XnExp.lean (antiderivative of x^n e^{-αx}), C09Terms.lean (real value of a c
 (d) VG `integrate_against_xn` (M's `vgXnTerms`, n ≥ 1) is ∫_a^b x^n · density; Merton mass / x / x² and VG mass on one
     side of 0 equal the integrals of their densities for every function `erf` / `E1` satisfying the stated derivative
     hypothesis (a theorem parameter, never an axiom; both hypotheses are shown satisfiable).
-    Half-lines [a,∞), a ≥ 0 and (−∞,b], b ≤ 0 for (b) and (c) as improper integrals.  CGMY: not proved.
+    Half-lines [a,∞), a ≥ 0 and (−∞,b], b ≤ 0 for (b) and (c) as improper integrals; Merton / VG mass on half-lines with the
+    limit of erf / E1 at infinity as one more hypothesis.  CGMY mass (every branch y < 2) and first moment (y ≠ 1, y = 1)
+    on one side of 0 for every `E1`, `Gam` satisfying the derivative hypotheses of E1 and of z ↦ Γ(2−α, z).
 Real end points: the real-analysis statements behind (b), (c) hold for real a, b, α (lemma files); here they are
 specialised to the rationals that floats are.
 -/
@@ -22,6 +24,8 @@ import RpylibModel.Proofs.Lemmas.C09Hem
 import RpylibModel.Proofs.Lemmas.C09Vg
 import RpylibModel.Proofs.Lemmas.C09Special
 import RpylibModel.Proofs.Lemmas.C09Improper
+import RpylibModel.Proofs.Lemmas.C09SpecialInf
+import RpylibModel.Proofs.Lemmas.C09Cgmy
 
 set_option linter.unusedVariables false
 
@@ -448,5 +452,84 @@ theorem hem_correct_neg_inf (k : ℕ) (hk : k ≤ 2) (lam p eta1 eta2 b : ℚ) (
   · simp [hemTerms, hemNeg, ExtRat.lt, ExtRat.le, not_lt.mpr hb]
   · rw [evalTerms_cons, evalTerms_nil, cast_hemNegTerm k hk, integral_Iic_hem k hk _ _ _ _ hlR hpR h2R b hbR]
     push_cast; ring
+
+/-! ## (d) infinite end points for the special-function families: the limit at infinity is one more hypothesis -/
+open Filter Topology in
+/-- Merton `integrate(a, inf)` (scipy: erf(inf) = 1) -/
+theorem merton_mass_Ioi (erf : ℝ → ℝ) (herf : ∀ x, HasDerivAt erf (2 / √π * exp (-x ^ 2)) x)
+    (hlim : Tendsto erf atTop (𝓝 1)) (lam mu sigma : ℝ) (hl : 0 ≤ lam) (hs : 0 < sigma) (a : ℝ) :
+    0.5 * lam * (1 - erfAux erf mu sigma a) = ∫ x in Set.Ioi a, mertonDensity lam mu sigma x :=
+  (integral_Ioi_merton_mass erf herf hlim lam mu sigma hl hs a).symm
+
+open Filter Topology in
+/-- Merton `integrate(-inf, b)` (scipy: erf(-inf) = -1) -/
+theorem merton_mass_Iic (erf : ℝ → ℝ) (herf : ∀ x, HasDerivAt erf (2 / √π * exp (-x ^ 2)) x)
+    (hlim : Tendsto erf atBot (𝓝 (-1))) (lam mu sigma : ℝ) (hl : 0 ≤ lam) (hs : 0 < sigma) (b : ℝ) :
+    0.5 * lam * (erfAux erf mu sigma b - (-1)) = ∫ x in Set.Iic b, mertonDensity lam mu sigma x :=
+  (integral_Iic_merton_mass erf herf hlim lam mu sigma hl hs b).symm
+
+open Filter Topology in
+/-- VG `integrate(a, inf)`, a > 0 (variancegamma.py:129-133) -/
+theorem vg_mass_Ioi (E1 : ℝ → ℝ) (hE1 : ∀ x, 0 < x → HasDerivAt E1 (-exp (-x) / x) x) (hlim : Tendsto E1 atTop (𝓝 0))
+    (c lp lm : ℝ) (hc : 0 ≤ c) (hlp : 0 < lp) (a : ℝ) (ha : 0 < a) :
+    c * E1 (lp * a) = ∫ x in Set.Ioi a, vgDensity c lp lm x :=
+  (integral_Ioi_vg_mass E1 hE1 hlim c lp lm hc hlp a ha).symm
+
+open Filter Topology in
+/-- VG `integrate(-inf, b)`, b < 0 (variancegamma.py:135-139) -/
+theorem vg_mass_Iic (E1 : ℝ → ℝ) (hE1 : ∀ x, 0 < x → HasDerivAt E1 (-exp (-x) / x) x) (hlim : Tendsto E1 atTop (𝓝 0))
+    (c lp lm : ℝ) (hc : 0 ≤ c) (hlm : 0 < lm) (b : ℝ) (hb : b < 0) :
+    c * E1 (-lm * b) = ∫ x in Set.Iic b, vgDensity c lp lm x :=
+  (integral_Iic_vg_mass E1 hE1 hlim c lp lm hc hlm b hb).symm
+
+/-! ## (d) CGMY on one side of zero (cgmy.py:127-168, 215-276), `E1` and `Gam a z` = Γ(2−a)·gammaincc(2−a, z) as parameters -/
+
+/-- CGMY mass on [a,b] ⊂ (0,∞), every branch y < 2 of the activity index (E1 for y = 0, closed branch for y < 1,
+    one recursion step for 1 ≤ y < 2) -/
+theorem cgmy_mass_pos (E1 : ℝ → ℝ) (Gam : ℝ → ℝ → ℝ) (hE1 : ∀ x, 0 < x → HasDerivAt E1 (-exp (-x) / x) x)
+    (hG : ∀ a z, 0 < z → HasDerivAt (Gam a) (-(z ^ (1 - a) * exp (-z))) z)
+    (c g m y : ℝ) (hy : y < 2) (hm : 0 < m) (a b : ℝ) (ha : 0 < a) (hab : a ≤ b) :
+    c * (cgmyTailMass E1 Gam y m a - cgmyTailMass E1 Gam y m b) = ∫ x in a..b, cgmyDensity c g m y x :=
+  (integral_cgmy_mass_pos E1 Gam hE1 hG c g m y hy hm a b ha hab).symm
+
+/-- CGMY mass on [a,b] ⊂ (−∞,0) -/
+theorem cgmy_mass_neg (E1 : ℝ → ℝ) (Gam : ℝ → ℝ → ℝ) (hE1 : ∀ x, 0 < x → HasDerivAt E1 (-exp (-x) / x) x)
+    (hG : ∀ a z, 0 < z → HasDerivAt (Gam a) (-(z ^ (1 - a) * exp (-z))) z)
+    (c g m y : ℝ) (hy : y < 2) (hg : 0 < g) (a b : ℝ) (hb : b < 0) (hab : a ≤ b) :
+    c * (cgmyTailMass E1 Gam y g (-b) - cgmyTailMass E1 Gam y g (-a)) = ∫ x in a..b, cgmyDensity c g m y x :=
+  (integral_cgmy_mass_neg E1 Gam hE1 hG c g m y hy hg a b hb hab).symm
+
+/-- CGMY first moment on [a,b] ⊂ (0,∞), y ≠ 1 (cgmy.py:150-157, 268-274) -/
+theorem cgmy_x_pos (Gam : ℝ → ℝ) (c g m y : ℝ) (hy : y ≠ 1) (hm : 0 < m)
+    (hG : ∀ z, 0 < z → HasDerivAt Gam (-(z ^ (1 - y) * exp (-z))) z) (a b : ℝ) (ha : 0 < a) (hab : a ≤ b) :
+    c * (cgmyTailX Gam y m a - cgmyTailX Gam y m b) = ∫ x in a..b, x ^ 1 * cgmyDensity c g m y x :=
+  (integral_cgmy_x_pos Gam c g m y hy hm hG a b ha hab).symm
+
+/-- CGMY first moment on [a,b] ⊂ (−∞,0), y ≠ 1 (cgmy.py:159-166) -/
+theorem cgmy_x_neg (Gam : ℝ → ℝ) (c g m y : ℝ) (hy : y ≠ 1) (hg : 0 < g)
+    (hG : ∀ z, 0 < z → HasDerivAt Gam (-(z ^ (1 - y) * exp (-z))) z) (a b : ℝ) (hb : b < 0) (hab : a ≤ b) :
+    c * (cgmyTailX Gam y g (-a) - cgmyTailX Gam y g (-b)) = ∫ x in a..b, x ^ 1 * cgmyDensity c g m y x :=
+  (integral_cgmy_x_neg Gam c g m y hy hg hG a b hb hab).symm
+
+/-- CGMY first moment for y = 1 on [a,b] ⊂ (0,∞): the exp1 branch (cgmy.py:266-267) -/
+theorem cgmy_x_y1_pos (E1 : ℝ → ℝ) (hE1 : ∀ x, 0 < x → HasDerivAt E1 (-exp (-x) / x) x)
+    (c g m : ℝ) (hm : 0 < m) (a b : ℝ) (ha : 0 < a) (hab : a ≤ b) :
+    c * (E1 (m * a) - E1 (m * b)) = ∫ x in a..b, x ^ 1 * cgmyDensity c g m 1 x :=
+  (integral_cgmy_x_y1_pos E1 hE1 c g m hm a b ha hab).symm
+
+/-- the hypothesis on the incomplete gamma function is satisfiable, for every index a at once -/
+theorem Gam_hypothesis_satisfiable :
+    ∃ Gam : ℝ → ℝ → ℝ, ∀ a z, 0 < z → HasDerivAt (Gam a) (-(z ^ (1 - a) * exp (-z))) z := by
+  refine ⟨fun a z => ∫ t in (1:ℝ)..z, -(t ^ (1 - a) * exp (-t)), fun a z hz => ?_⟩
+  have hcont : ContinuousOn (fun t : ℝ => -(t ^ (1 - a) * exp (-t))) (Set.Ioi 0) :=
+    (ContinuousOn.mul (continuousOn_id.rpow_const (fun t ht => Or.inl (ne_of_gt ht)))
+      (Continuous.continuousOn (by fun_prop))).neg
+  have hint : IntervalIntegrable (fun t : ℝ => -(t ^ (1 - a) * exp (-t))) MeasureTheory.volume 1 z := by
+    apply ContinuousOn.intervalIntegrable
+    apply hcont.mono
+    intro t ht
+    exact lt_of_lt_of_le (lt_min one_pos hz) ht.1
+  exact intervalIntegral.integral_hasDerivAt_right hint
+    (hcont.stronglyMeasurableAtFilter isOpen_Ioi z hz) (hcont.continuousAt (Ioi_mem_nhds hz))
 
 end Rpylib.Integrals
